@@ -9,8 +9,10 @@ if ! git -C /repo apply --check "$P" 2>/dev/null; then echo "PATCH-DOES-NOT-APPL
 git -C /repo apply "$P"
 ( cd /tmp && PYTHONPATH=/repo PYCOIN_NATIVE=none timeout 300 /venv/bin/python "$D" >/dev/null 2>&1 ); BROKEN=$?
 echo "demo: clean-exit=$CLEAN patched-exit=$BROKEN"
+mkdir -p /tmp/w/evsave && rm -rf /tmp/w/evsave/* && cp -a /verif/evidence/. /tmp/w/evsave/
 cd /verif && timeout 1800 ./vcheck "$PID" --tier "$TIER" > /tmp/w/seed_$PID_$N.log 2>&1; RC=$?
 git -C /repo checkout -- .
+rm -rf /verif/evidence && mkdir -p /verif/evidence && cp -a /tmp/w/evsave/. /verif/evidence/   # evidence committed must come from the unchanged tree
 grep -c "^VIOLATION" /tmp/w/seed_$PID_$N.log | sed "s/^/violations=/"
 grep "^VIOLATION\|^HARNESS-ERROR\|^INCONCLUSIVE" /tmp/w/seed_$PID_$N.log | cut -c1-220 | head -6
 echo "check-exit=$RC"
